@@ -69,6 +69,10 @@ for c in js['tensor_cases']:
             r = T(inp['x'])
             v = r[:, 1, None, 2:, :-1]
             v *= 3
+        elif nm == 'm_unflatten':
+            r = T(inp['x']).unflatten(a['dim'], a['sizes'])
+        elif nm == 'm_movedim':
+            r = T(inp['x']).movedim(a['src'], a['dst']).contiguous()
         elif nm == 'm_permute':
             r = T(inp['x']).permute(*a['perm']).contiguous()
         elif nm == 'm_unsqueeze':
